@@ -711,6 +711,12 @@ fn wm_value_lists(rng: &mut Rng, thorough: bool) -> Vec<Vec<u64>> {
         v.push((0..len).map(|_| rng.below(1u64 << w)).collect());
     }
     v.push(vec![4096, 0, 4096, 1, 2048]);
+    // levels of very different sizes: every value shares the top bits (level 0 all ones: no unset bits to index), a
+    // long constant vector, two-letter text in a wide alphabet
+    v.push((0..400).map(|_| *rng.pick(&[65u64, 67, 71, 84])).collect());
+    v.push((0..700).map(|_| 0x41 + rng.below(26)).collect());
+    v.push(vec![200; 300]);
+    v.push((0..350).map(|i| if i % 50 == 0 { 1u64 << 11 } else { (1u64 << 11) + 1 + rng.below(3) }).collect());
     v.push((0..50).map(|_| *rng.pick(&[1u64, 16, 17, 1000])).collect());
     if thorough {
         for _ in 0..40 {
@@ -862,6 +868,11 @@ fn systematic_items(rng: &mut Rng, thorough: bool) -> Vec<Box<dyn Item>> {
     }
     v.push(Box::new(some(g_rl(rng, 20, 1, 3))));
     v.push(Box::new(none::<RLVector>("TRL")));
+    // enough blocks for the sample indexes to hold several samples (one per 8 blocks): 9, 17 and more blocks
+    for (n, profile) in [(290usize, 0u64), (300, 1), (560, 0), (400, 1)] {
+        v.push(Box::new(g_rl(rng, n, profile, (n % 4) as usize)));
+    }
+    v.push(Box::new(some(g_rl(rng, 320, 0, 1))));
     v
 }
 
